@@ -612,11 +612,12 @@ Section Inside.
         try (unfold from_string, from_bool, from_char; cbn [impl_of o_string o_bool o_char]; intros ? ? [= <-]; apply unsp_new).
       unfold from_word. cbn [impl_of o_word]. intros x. destruct (ci_from_word c); [apply fn_unsp|intros [= <-]; apply unsp_new].
     - (* a newtype struct *)
-      destruct (IH LO) as [Tm _]. split.
+      destruct (IH LO) as [Tm Tl]. split.
       + intros m e M W. unfold from_meta. cbn [impl_of o_meta].
         destruct (from_meta (impl t) m) as [v|y|mm] eqn:R; cbn [map_err map_ok]; try discriminate. intros [= <-].
         apply oks_with_span; [|apply span_inside_refl]. apply oks_okw. now apply Tm.
-      + intros l e _ [= <-]. apply unsp_okw, unsp_new.
+      + intros l e W. unfold from_list at 1. cbn [impl_of o_list].
+        destruct (from_list (impl t) l) as [v|y|mm] eqn:R; cbn [map_ok]; try discriminate. intros [= <-]. now apply Tl.
     - (* a unit struct *)
       split; [|intros l e _ [= <-]; apply unsp_okw, unsp_new]. intros m e M W.
       apply hooks_inside; auto;
